@@ -63,7 +63,7 @@ ATOMS = {
     'var': ['x', 'name=x', 'expr="a"', 'expr="1+"', '"a"', '"1+"', 'lower', 'size=3', 'fmt=u', 'bogus=1', 'bogus',
             'NAME=y', 'a="', 'null', 'html_quote', 'expr=a+1', 'expr', 'LOWER', 'Html_Quote', 'SIZE=2', 'Fmt=u'],
     'in': ['x', 'name=x', 'expr="a"', 'expr="1+"', '"a"', 'mapping', 'size=3', 'start=b', 'orphan=1', 'prefix=p',
-           'prefix="a b"', 'sort_expr="1+"', 'reverse_expr="a"', 'bogus=1', 'sort=k', 'next', 'prefix', 'overlap', 'Mapping', 'REVERSE',
+           'prefix="a b"', 'prefix=_row', 'prefix=gr\u00f6sse', 'prefix=9x', 'prefix=a-b', 'prefix=A_1', 'sort_expr="1+"', 'reverse_expr="a"', 'bogus=1', 'sort=k', 'next', 'prefix', 'overlap', 'Mapping', 'REVERSE',
            'Size=3', 'NEXT'],
     'if': ['x', 'name=x', 'expr="a"', 'expr="1+"', '"a"', '"1+"', 'bogus', 'mapping', 'y=1', '=x', 'EXPR="b"'],
     'unless': ['x', 'name=x', 'expr="a"', '"1+"', 'bogus', 'expr="1+"'],
@@ -74,7 +74,7 @@ ATOMS = {
     'call': ['x', 'name=x', 'expr="a"', 'expr="1+"', '"a"', '"1+"', 'lower'],
     'return': ['x', 'name=x', 'expr="a"', 'expr="1+"', '"a"', '"1+"', 'lower'],
     'tree': ['x', 'name=x', 'expr="a"', 'expr="1+"', 'branches=b', 'branches_expr="c"', 'branches_expr="1+"', 'nowrap',
-             'prefix="a b"', 'sort', 'id=i', 'bogus', 'name', 'single', 'prefix=p', 'NOWRAP', 'Single', 'ID=i'],
+             'prefix="a b"', 'prefix=_t', 'prefix=\u00e9', 'prefix=T2', 'sort', 'id=i', 'bogus', 'name', 'single', 'prefix=p', 'NOWRAP', 'Single', 'ID=i'],
     'comment': ['x', 'bogus=1', '"'],
 }
 CONT_ATOMS = {'elif': ATOMS['if'], 'else-if': ['a', 'name=a', '"a"', 'b', 'bogus=1', 'a ', 'expr="a"'],
